@@ -15,6 +15,7 @@ THEOREMS = [_T + n for n in [
     "valid_ip_spec", "valid_ip_rejects", "valid_ip_noname", "valid_ip_ascii",
     "url_concat_none", "url_concat_nil_noquery",
     "param_roundtrip", "civil_roundtrip", "timestamp_roundtrip", "url_concat_preserves",
+    "tuple_timestamp", "datetime_naive_roundtrip", "datetime_aware_roundtrip",
 ]]
 TRUSTED = [
     "CPython `re` on the five small patterns involved (_ABNF.request_line/status_line, _netloc_re with Unicode \\d, "
@@ -32,13 +33,17 @@ ASSUMPTIONS = [
     "subject to the never-raises oracle)",
     "url_concat: the part of the URL before '?'/'#' is taken from a generator of bases that urlunparse(urlparse(.)) leaves "
     "unchanged, and URLs contain no whitespace/control characters (urlsplit strips them); no lone surrogates",
-    "format_timestamp: integer timestamps 0 <= ts < 253402300800 (years 1970-9999); tuple/datetime inputs are only "
-    "compared with the integer form in the implementation (tie only)",
+    "format_timestamp: instants 0 <= ts < 253402300800 (years 1970-9999) given as int, float with an exact binary "
+    "fraction (the float is modelled by its whole part), time tuple / struct_time, naive datetime (= UTC, as documented) or "
+    "aware datetime with a whole-second utcoffset; a datetime whose wall-clock fields lie before 1970 (negative offset "
+    "just after the epoch) is outside the model (`Unmodelled`) but still under the round-trip oracle. The process time "
+    "zone is NOT an input of the model: `tsz` cases run the implementation under os.environ['TZ'] + time.tzset() for 19 "
+    "zones (IANA names need the system tz database; the POSIX forms do not) and restore the zone afterwards",
     "the way back for HTTP dates is calendar.timegm(email.utils.parsedate(s)), as used by tornado.web for If-Modified-Since",
 ]
 RULE = ("per-function generators built from each grammar (valid forms, boundary forms, mutations) plus random strings over a "
         "small hostile alphabet incl. non-ASCII; non-trivial = the input reaches the interesting branch of its function "
-        "(accepted start line, >=1 parameter/cookie, port present, >=1 escaped char, plain address, >=1 existing query pair)")
+        "(accepted start line, >=1 parameter/cookie, port present, timestamp formatted in a process time zone that is off UTC, >=1 escaped char, plain address, >=1 existing query pair)")
 EXHAUSTIVE = {"quick": False, "thorough": False}
 CLAUSES = {
     "request/response start-line parsers accept exactly the RFC 9112 grammar, HTTPInputError otherwise":
@@ -50,7 +55,9 @@ CLAUSES = {
     "token-valued header parameters round-trip through encoding": "param_roundtrip (token key, sorted lower-case token names "
         "not of RFC 2231 shape, token values); oracle on every `encode` case",
     "HTTP timestamps round-trip through formatting and parsing": "timestamp_roundtrip (whole seconds, years 1970-9999), "
-        "civil_roundtrip (days <-> civil date); oracle on every `ts` case",
+        "civil_roundtrip (days <-> civil date), tuple_timestamp (gmtime tuple = int), datetime_naive_roundtrip (naive datetime "
+        "= UTC, no time-zone input), datetime_aware_roundtrip (any whole-second utcoffset); oracle on every `ts` case and, for "
+        "every input type under 19 process time zones, on every `tsz` case",
     "url_concat preserves existing query pairs and fragment and appends the arguments":
         "url_concat_preserves (text without lone surrogates), url_concat_none, url_concat_nil_noquery; oracle on every `url` case",
     "re_unescape inverts re.escape": "re_unescape_escape",
@@ -284,6 +291,37 @@ def g_ts(rng):
     return rng.randint(0, 253402300799)
 
 
+# ---- format_timestamp under several process time zones (`tsz` cases) --------------------------------------------
+# IANA names need /usr/share/zoneinfo (a missing file silently means UTC: the case stays valid, only less sensitive);
+# the POSIX forms need no database.  Offsets -12:00 .. +14:00, half/quarter-hour zones, both DST hemispheres.
+ZONES = ["UTC", "America/New_York", "Asia/Kolkata", "Pacific/Chatham", "Europe/London", "Australia/Lord_Howe",
+         "Asia/Kathmandu", "Pacific/Kiritimati", "Etc/GMT+12", "America/St_Johns",
+         "EST5EDT", "XYZ-5:45", "AAA12", "BBB-14", "UTC0", "<+0330>-3:30", "NZST-12NZDT,M9.5.0,M4.1.0/3", "CET-1", "EST5"]
+# utcoffset() of the aware datetime inputs, in seconds (datetime.timezone allows |off| < 24 h, any whole second)
+OFFSETS = [0, 3600, -3600, -14400, -18000, 19800, 20700, 45900, 49500, 50400, -43200, -12600, 86399, -86399, 1, -1, 59,
+           -2670, 34200, 37800]
+# instants around DST switches of the zones above, the epoch (wall clock before 1970 for negative offsets), 2038,
+# the last day of year 9999 (wall clock past 9999 for positive offsets is skipped: not a datetime)
+TSZ_EDGES = [0, 1, 3599, 12600, 18000, 43199, 43200, 50400, 86399, 86400, 1359312200,
+             1362898799, 1362898800, 1383458399, 1383458400, 1364691599, 1364691600, 1382835600,      # US / EU 2013
+             1380376800, 1365256800, 1380982800, 1365260400, 1380987000,                              # NZ / Chatham / Lord Howe
+             951782399, 951782400, 2147483647, 2147483648, 4102444800, 32503680000,
+             253402300799, 253402300799 - 3600, 253402300799 - 50400, 253402300799 - 86399, 253402214400]
+
+
+def g_tsz(rng):
+    k = rng.random()
+    if k < 0.45:
+        ts = min(253402300799, max(0, rng.choice(TSZ_EDGES) + rng.choice([-1, 0, 0, 1])))
+    elif k < 0.7:
+        ts = g_ts(rng)
+    else:
+        ts = rng.randint(0, 4102444800)
+    offs = sorted(set(rng.choice(OFFSETS) if rng.random() < 0.7 else rng.randint(-86399, 86399)
+                      for _ in range(rng.randint(1, 3))))
+    return {"ts": ts, "tz": rng.choice(ZONES), "offs": offs, "us": rng.choice([0, 0, 1, 500000, 999999])}
+
+
 BASES = ["http://example.com/foo", "/path", "", "foo", "https://h:8080/a/b;p", "//host/p", "http://example.com", "/a;b;c", "http://u:p@h/",
          "/a%20b", "http://[::1]:80/x", "ws://h/s", "/"]
 QPIECES = ["a=b", "c=d", "a=", "=v", "k", "", "a=b=c", "x=%41", "x=%zz", "%C3%A9=%e2%82%ac", "a+b=c+d", "a=%ff", "é=ü", "a=%20", "a;b=1",
@@ -311,7 +349,7 @@ def g_url(rng):
 
 GENS = [("reqline", g_reqline, 1.3), ("respline", g_respline, 1.0), ("header", g_header, 2.0), ("encode", g_encode, 0.7),
         ("cookie", g_cookie, 1.0), ("hostport", g_hostport, 1.0), ("re", g_re, 0.8), ("ip", g_ip, 1.2), ("ts", g_ts, 0.8),
-        ("url", g_url, 1.2)]
+        ("url", g_url, 1.2), ("tsz", g_tsz, 0.3)]
 
 
 def _clean_header(s):
@@ -323,12 +361,16 @@ def gen_cases(rng, tier):
     yield {"fn": "tables"}
     for w in ["h:" + "9" * 4301, "h:" + "9" * 4300, "a; x*1=a; x*=b", "form-data; name=\"\\\"x\\\"\"", "a; file*=utf-8''a%22b"]:
         yield {"fn": "hostport" if w.startswith("h:") else "header", "s": w}
+    # every zone x a few instants (winter / summer / epoch / end of range), all input kinds: the same on every seed
+    for tz in ZONES:
+        for ts in (1359312200, 1373000000, 0, 253402300799):
+            yield {"fn": "tsz", "ts": ts, "tz": tz, "offs": [-18000, 20700], "us": 0}
     for name, g, weight in GENS:
         for _ in range(int(per * weight)):
             x = g(rng)
             if name == "header":
                 x = _clean_header(x)
-            if name in ("encode", "re", "url"):
+            if name in ("encode", "re", "url", "tsz"):
                 yield {"fn": name, **x}
             elif name == "ts":
                 yield {"fn": "ts", "ts": x}
@@ -357,9 +399,104 @@ def _gai(ip):
         return "other"        # embedded NUL: never reached by is_valid_ip
 
 
+_EPOCH_FIELDS = (1970, 1, 1)
+
+
+def _dt_fields(dt):
+    """what utctimetuple() reads of a datetime: wall-clock fields and utcoffset() in seconds (None = naive)"""
+    off = dt.utcoffset()
+    return [dt.year, dt.month, dt.day, dt.hour, dt.minute, dt.second, None if off is None else int(off.total_seconds())]
+
+
+def _tsz_inputs(case, s_int):
+    """[label, kind, wire fields, object] for every way of handing the instant case['ts'] to format_timestamp.
+    Built from the case alone with time-zone independent arithmetic, except the two `local` forms (an AWARE datetime in
+    the process zone / in the zoneinfo zone) whose offset comes from the tz database and is recorded."""
+    import datetime, time, email.utils
+    ts, us = case["ts"], case.get("us", 0)
+    utc = datetime.timezone.utc
+    g = time.gmtime(ts)
+    naive = datetime.datetime(*_EPOCH_FIELDS) + datetime.timedelta(seconds=ts, microseconds=us)
+    out = [["int", "num", ts, ts],
+           ["float", "num", ts, ts + (0.5 if us else 0.25)],
+           ["float-whole", "num", ts, float(ts)],
+           ["struct_time", "tuple", list(g[:6]), g],
+           ["tuple9", "tuple", list(g[:6]), tuple(g)],
+           ["tuple6", "tuple", list(g[:6]), tuple(g[:6])],
+           ["naive", "dt", _dt_fields(naive), naive],
+           ["naive-fold", "dt", _dt_fields(naive), naive.replace(fold=1)],
+           ["aware-utc", "dt", _dt_fields(naive.replace(tzinfo=utc)), naive.replace(tzinfo=utc)]]
+    for off in case.get("offs", []):
+        try:
+            tz = datetime.timezone(datetime.timedelta(seconds=off))
+            dt = (naive + datetime.timedelta(seconds=off)).replace(tzinfo=tz)
+        except (OverflowError, ValueError):
+            continue                      # wall clock outside years 1..9999: no such datetime
+        out.append(["aware%+d" % off, "dt", _dt_fields(dt), dt])
+    try:
+        dt = naive.replace(tzinfo=utc).astimezone()          # aware, fixed offset of the PROCESS zone at that instant
+        out.append(["aware-local", "dt", _dt_fields(dt), dt])
+    except (OverflowError, ValueError, OSError):
+        pass
+    try:
+        import zoneinfo
+        dt = naive.replace(tzinfo=utc).astimezone(zoneinfo.ZoneInfo(case["tz"]))
+        if dt.utcoffset() is not None and dt.utcoffset().microseconds == 0:
+            out.append(["aware-zoneinfo", "dt", _dt_fields(dt), dt])
+    except Exception:
+        pass
+    if isinstance(s_int, str):
+        # the way tornado.web reads If-Modified-Since: parsedate -> naive datetime; and the aware form
+        try:
+            t = email.utils.parsedate(s_int)
+            dt = datetime.datetime(*t[:6])
+            out.append(["naive-parsed", "dt", _dt_fields(dt), dt])
+            dt = email.utils.parsedate_to_datetime(s_int)
+            out.append(["aware-parsed", "dt", _dt_fields(dt), dt])
+        except Exception:
+            pass
+    return out
+
+
+def _run_tsz(case):
+    import os, time, calendar, email.utils
+    from tornado import httputil
+    old = os.environ.get("TZ")
+    os.environ["TZ"] = case["tz"]
+    time.tzset()
+    try:
+        try:
+            loff = time.localtime(case["ts"]).tm_gmtoff
+        except (OverflowError, OSError, ValueError):
+            loff = time.localtime(0).tm_gmtoff
+        try:
+            s_int = httputil.format_timestamp(case["ts"])
+        except Exception as e:
+            s_int = None
+        rows, ins = [], []
+        for label, kind, fields, obj in _tsz_inputs(case, s_int):
+            try:
+                s = httputil.format_timestamp(obj)
+                t = email.utils.parsedate(s)
+                back = calendar.timegm(t) if t else None
+            except Exception as e:
+                s, back = _exc(e), None
+            rows.append([label, s, back])
+            ins.append([label, kind, fields])
+        return {"r": rows, "ins": ins, "loff": loff}
+    finally:
+        if old is None:
+            os.environ.pop("TZ", None)
+        else:
+            os.environ["TZ"] = old
+        time.tzset()
+
+
 def run_impl(case):
     from tornado import httputil, util, netutil
     fn = case["fn"]
+    if fn == "tsz":
+        return _run_tsz(case)
     try:
         if fn == "reqline":
             r = httputil.parse_request_start_line(case["s"])
@@ -398,7 +535,8 @@ def run_impl(case):
             back = calendar.timegm(email.utils.parsedate(s))
             same = (httputil.format_timestamp(time.gmtime(ts)) == s and
                     httputil.format_timestamp(datetime.datetime.fromtimestamp(ts, datetime.timezone.utc)) == s and
-                    httputil.format_timestamp(tuple(time.gmtime(ts))) == s and httputil.format_timestamp(ts + 0.5) == s)
+                    httputil.format_timestamp(tuple(time.gmtime(ts))) == s and httputil.format_timestamp(ts + 0.5) == s and
+                    httputil.format_timestamp(datetime.datetime(1970, 1, 1) + datetime.timedelta(seconds=ts)) == s)
             return {"r": s, "back": back, "same": same}
         if fn == "url":
             args = case["args"]
@@ -461,11 +599,22 @@ def model_requests(case, impl):
         if isinstance(impl.get("r"), str):
             out.append(line(ID, "parsedate", impl["r"]))
         return out
+    if fn == "tsz":
+        out = []
+        for label, kind, fields in impl["ins"]:
+            out.append(line(ID, {"num": "fmtts", "tuple": "fmttuple", "dt": "fmtdt"}[kind], fields))
+        for sdate in _tsz_strings(impl):
+            out.append(line(ID, "parsedate", sdate))
+        return out
     if fn == "url":
         return [line(ID, "urlconcat", case["url"], case["args"])]
     if fn == "tables":
         return [line(ID, "tables", 0)]
     raise AssertionError(fn)
+
+
+def _tsz_strings(impl):
+    return sorted(set(s for _, s, _ in impl["r"] if isinstance(s, str) and not s.startswith("Uncaught:")))
 
 
 def _norm(v):
@@ -495,6 +644,14 @@ def model_result(case, replies):
         return {"r": vals[0][0], "back": back}
     if fn == "ts":
         return {"r": vals[0][0], "back": vals[1][0] if len(vals) > 1 else None}
+    if fn == "tsz":
+        # replies: one formatted string (or Unmodelled) per input, then one parsed value (int / None) per distinct string
+        firsts = [v[0] for v in vals]
+        r = [v for v in firsts if isinstance(v, str)]
+        for i, v in enumerate(r):
+            if v == "Unmodelled":
+                _SKIP.add(_key(case) + "#%d" % i)
+        return {"r": r, "back": [v for v in firsts if not isinstance(v, str)]}
     if fn == "tables":
         return {"r": vals[0]}
     if fn == "re" and case["mode"] == "escape":
@@ -516,6 +673,11 @@ def impl_view(case, impl):
         return {"r": impl["r"], "back": back}
     if fn == "ts":
         return {"r": impl["r"], "back": impl.get("back")}
+    if fn == "tsz":
+        k = _key(case)
+        backs = dict((s, b) for _, s, b in impl["r"])
+        return {"r": ["Unmodelled" if (k + "#%d" % i) in _SKIP else s for i, (_, s, _) in enumerate(impl["r"])],
+                "back": [backs[s] for s in _tsz_strings(impl)]}
     if fn == "tables":
         return {"r": impl["r"]}
     return {"r": impl["r"]}
@@ -616,6 +778,16 @@ def spec_violation(case, impl, replies):
         if not impl.get("same"):
             return "format_timestamp differs between int / struct_time / tuple / datetime / float inputs"
         return None
+    if fn == "tsz":
+        ts, tz = case["ts"], case["tz"]
+        kinds = dict((label, (kind, fields)) for label, kind, fields in impl["ins"])
+        for label, sdate, back in r:
+            what = _tsz_kind(label, kinds[label])
+            if isinstance(sdate, str) and sdate.startswith("Uncaught:"):
+                return "format_timestamp raised %s for a %s (process TZ %s, ts %d)" % (sdate[9:], what, tz, ts)
+            if back != ts:
+                return "timestamp round trip of a %s under process TZ %s: instant %r -> %r -> %r" % (what, tz, ts, sdate, back)
+        return None
     if fn == "url":
         if unc:
             return "url_concat raised %s" % r
@@ -636,6 +808,15 @@ def spec_violation(case, impl, replies):
     return None
 
 
+def _tsz_kind(label, kf):
+    kind, fields = kf
+    if kind == "num":
+        return "float" if label.startswith("float") else "int"
+    if kind == "tuple":
+        return "struct_time" if label == "struct_time" else "time tuple"
+    return "naive datetime" if fields[6] is None else "aware datetime"
+
+
 def nontrivial(case, impl):
     fn, r = case["fn"], impl.get("r")
     if fn in ("reqline", "respline"):
@@ -654,6 +835,8 @@ def nontrivial(case, impl):
         return r is True
     if fn == "ts":
         return True
+    if fn == "tsz":
+        return impl.get("loff", 0) != 0          # the process zone really is off UTC at that instant
     if fn == "url":
         return case["args"] is not None and "?" in case["url"]
     return False
@@ -678,6 +861,13 @@ def stats(case, impl):
         out.append("ip:%s" % r)
     elif fn == "encode":
         out.append("encode:back=" + ("exc" if isinstance(impl.get("back"), str) else "ok"))
+    if fn == "tsz":
+        lo = impl.get("loff", 0)
+        out.append("tsz:process-zone-" + ("utc" if lo == 0 else "east" if lo > 0 else "west") + ("" if lo % 3600 == 0 else "-fractional"))
+        out.append("tsz:inputs=%d" % len(r))
+        for i in range(len(r)):
+            if (_key(case) + "#%d" % i) in _SKIP:
+                out.append("tsz:wall-clock-before-1970-unmodelled")
     return out
 
 
@@ -688,6 +878,9 @@ def signature(case, impl, why):
         return "parse_header/uncaught/%s/%s" % (why.rsplit(" ", 1)[-1], "rfc2231" if "*" in s else "plain")
     if fn == "hostport":
         return "split_host_and_port/uncaught/%s" % why.rsplit(":", 1)[-1]
+    if fn == "tsz":
+        m = re.search(r"(?:of|for) a ([a-z_ ]+?) (?:under|\()", why)
+        return "format_timestamp/%s/%s" % ("raised" if " raised " in why else "roundtrip", (m.group(1) if m else "?").replace(" ", "-"))
     if fn == "ip":
         if "non-ASCII" in why:
             return "is_valid_ip/non-ascii-accepted"
@@ -709,6 +902,19 @@ def shrink(case):
         u = case["url"]
         for i in range(len(u)):
             yield {**case, "url": u[:i] + u[i + 1:]}
+    if case["fn"] == "tsz":
+        if case.get("offs"):
+            yield {**case, "offs": []}
+            for i in range(len(case["offs"])):
+                yield {**case, "offs": case["offs"][:i] + case["offs"][i + 1:]}
+        if case.get("us"):
+            yield {**case, "us": 0}
+        for t in (1359312200, case["ts"] - case["ts"] % 86400, case["ts"] - case["ts"] % 3600):
+            if t != case["ts"]:
+                yield {**case, "ts": t}
+        for tz in ("EST5", "XYZ-5:45"):
+            if case["tz"] not in ("EST5", "XYZ-5:45"):
+                yield {**case, "tz": tz}
     if case["fn"] == "encode":
         for i in range(len(case["items"])):
             yield {**case, "items": case["items"][:i] + case["items"][i + 1:]}
